@@ -325,7 +325,7 @@ func runKeyDom(c *core.Ctx) {
 	c.CountSites(len(probeKeys))
 	hasKey, hasID := false, false
 	for _, k := range probeKeys {
-		if strings.Contains(k, an.FuncFullName(a.keyFn)) {
+		if strings.Contains(k, an.FuncFullName(a.keyFn)) || strings.Contains(k, an.FuncFullName(an.Follow(a.keyFn))) {
 			hasKey = true
 		}
 		if k == evParam+".ID" || strings.Contains(k, "EventKey="+evParam+".ID") {
@@ -363,7 +363,7 @@ func runKeyDom(c *core.Ctx) {
 	for _, o := range occCallsTo(delRef, a.del, a.stop) {
 		k := a.delArg(o)
 		keys = append(keys, k)
-		if strings.Contains(k, an.FuncFullName(a.keyFn)) && strings.Contains(k, ".idx[") && strings.Contains(k, fmt.Sprintf("What=const:%d", idConst)) {
+		if (strings.Contains(k, an.FuncFullName(a.keyFn)) || strings.Contains(k, an.FuncFullName(an.Follow(a.keyFn)))) && strings.Contains(k, ".idx[") && strings.Contains(k, fmt.Sprintf("What=const:%d", idConst)) {
 			viaIndex = true
 		} else {
 			raw = true
